@@ -1220,6 +1220,10 @@ impl<'a> GeneratorState<'a> {
             _ => self.asm(if load { LDA } else { STA }, expr, pos, false)?,
         };
         self.protected = false;
+        // LDA, TXA, TYA, TAX and TAY change the N and Z flags
+        if load || matches!(expr, ExprType::X | ExprType::Y) {
+            self.flags = FlagsState::Unknown;
+        }
         Ok(())
     }
 
